@@ -703,7 +703,7 @@ fn main() {
 
     // ---- generated sequences ----
     let mut rng = Rng::new(args.seed);
-    let n_cases = args.n(150, 4000);
+    let n_cases = args.n(150, 2000);
     for i in 0..n_cases {
         id += 1;
         let kind = KINDS[(i % KINDS.len() as u64) as usize];
